@@ -35,6 +35,23 @@ static echs_evstrm_t mkstrm(const char *uid, const char *times, echs_oid_t *oid)
 		const char *q = times; while (*q && *q != ',') q++; if (*q) q++;
 		times = q;
 	}
+	if (*times && !allday && uid[0] == 'z') {
+		/* a UID that begins with z: the same instants, every other one written as wall-clock time of Asia/Tokyo (nine hours ahead all
+		 * year) on an RDATE line of its own - lists in two notations, what is ascending as text is not ascending in time */
+		char l2[4096]; char *p2 = l2; int k = 0, n1 = 0, n2 = 0;
+		p += sprintf(p, "RDATE:");
+		p2 += sprintf(p2, "RDATE;TZID=Asia/Tokyo:");
+		for (const char *q = times; *q; k++) {
+			int t = atoi(q), day = t / 100000; t %= 100000;
+			if (k % 2 == 0) p += sprintf(p, "%s203001%02dT%02d%02d%02dZ", n1++ ? "," : "", 1 + day, t / 3600, t / 60 % 60, t % 60);
+			else { int tl = t + 9 * 3600, dl = day + tl / 86400; tl %= 86400; p2 += sprintf(p2, "%s203001%02dT%02d%02d%02d", n2++ ? "," : "", 1 + dl, tl / 3600, tl / 60 % 60, tl % 60); }
+			while (*q && *q != ',') q++; if (*q) q++;
+		}
+		if (!n1) p -= 6;	/* no value for the first line */
+		else p += sprintf(p, "\n");
+		if (n2) p += sprintf(p, "%s\n", l2);
+		times = "";
+	}
 	if (*times) {
 		p += sprintf(p, allday ? "RDATE;VALUE=DATE:" : "RDATE:");
 		const char *q = times; int first = 1;
